@@ -28,7 +28,10 @@ struct track
     double tcp_connect_timeout;
     struct tcp_opts tcp_opts;
 
-    const struct xcm_addr_ip *local_ip;
+    /* The local address is copied, since connection attempts may be
+       made long after the track was created. */
+    bool has_local_ip;
+    struct xcm_addr_ip local_ip;
     uint16_t local_port;
     int64_t scope;
 
@@ -87,13 +90,16 @@ static struct track *track_create(int fd4, int fd6,
 	.num_remote_ips = num_remote_ips,
 	.remote_port = remote_port,
 	.scope = scope,
-	.local_ip = local_ip,
+	.has_local_ip = local_ip != NULL,
 	.local_port = local_port,
 	.timer_mgr = timer_mgr,
 	.xpoll = xpoll,
 	.ip_idx = -1,
 	.log_ref = log_ref
     };
+
+    if (local_ip != NULL)
+	track->local_ip = *local_ip;
 
     if (initial_delay > 0) {
 	track->timer_id = timer_mgr_schedule(timer_mgr, initial_delay);
@@ -195,11 +201,11 @@ static void track_connect_next(struct track *track)
 	return;
     }
 
-    if (track->local_ip != NULL) {
+    if (track->has_local_ip) {
 	struct sockaddr_storage laddr;
 	int64_t scope = track_get_current_scope(track);
 
-	tp_ip_to_sockaddr(track->local_ip, track->local_port, scope,
+	tp_ip_to_sockaddr(&track->local_ip, track->local_port, scope,
 			  (struct sockaddr *)&laddr);
 
 	UT_SAVE_ERRNO;
